@@ -259,7 +259,16 @@ def sc_of_term(ex, t):
     # an arbitrary bit-vector term (e.g. bytes of a symbolic input): one atomic generator per term
     g = st['atoms'].get(t)
     if g is None:
-        g = new_gen(ex, 'bv')
+        names = set()
+        def collect(e):
+            if z3.is_const(e) and e.decl().kind() == z3.Z3_OP_UNINTERPRETED:
+                names.add(str(e))
+            for c in e.children():
+                collect(c)
+        collect(t)
+        # values derived only from crypto/rand bytes are independent random coefficients: formal
+        # indeterminates (Schwartz-Zippel / genericity assumption, see C03)
+        g = new_gen(ex, 'hrho' if names and all('_rand' in n for n in names) else 'bv')
         st['atoms'].set(t, g)
         st.setdefault('atomterm', {})[g] = t
         # link the generator with the bit-vector it stands for (the value is reduced by the caller's contract)
@@ -288,6 +297,15 @@ def elem(ex, kind, dlog, tors=ZERO, aff=True):
         e = GE(kind, dlog, tors, aff)
         e.name = '%s!%d' % (kind, len(st['elems']))
         e.id = z3.BitVec(e.name, 64)
+        if aff:
+            # affine coordinates determine the group element: two affine representatives have equal
+            # (x, y) limbs iff they are the same element
+            F, xl = LIMB[kind], XL[kind]
+            for e2 in st['elems'].values():
+                if e2.kind == kind and e2.aff:
+                    same = band(zero_cond(ex, dlog - e2.dlog), zero_cond(ex, tors - e2.tors))
+                    limbs = z3.And(*[F(e.id, z3.BitVecVal(k, 8)) == F(e2.id, z3.BitVecVal(k, 8)) for k in range(2 * xl)])
+                    ex.add(limbs == (z3.BoolVal(same) if isinstance(same, bool) else same))
         st['elems'][key] = e
         st['byid'][e.name] = e
     return e
